@@ -141,7 +141,7 @@ def sweep_case(ctx, case, hexe, dexe, bb, work, ci, quick):
             found = True
 
     # ---- 1. pairwise across the six classes
-    pairs = [("P", "R", True), ("T", "A", True), ("T", "Q", True), ("A", "B", True), ("P", "T", closed), ("R", "A", closed)]
+    pairs = [("P", "R", True), ("T", "A", True), ("T", "Q", True), ("A", "B", True), ("P", "T", True), ("R", "A", True)]
     for x, y, structural in pairs:
         if x not in base or y not in base:
             continue
@@ -218,9 +218,11 @@ def sweep_case(ctx, case, hexe, dexe, bb, work, ci, quick):
                                 "ops": ops2[:1]}, key=KEY_QUANT)
     # ---- 3. binary files: build_binary (write method, options) then load the binary
     nbin = 1 if quick else 3
-    for _ in range(nbin):
-        typ = ctx.rng.choice(["probing", "trie", "trie-a", "trie-q", "trie-qa"])
-        wm = ctx.rng.choice(["mmap", "after"])
+    combos = [(ctx.rng.choice(["probing", "trie", "trie-a", "trie-q", "trie-qa"]), ctx.rng.choice(["mmap", "after"]))
+              for _ in range(nbin)]
+    if case.meta.get("unk") == "absent":     # the missing-<unk> fix-up must reach the file with either write method
+        combos = [(t, w) for t in ("probing", "trie") for w in ("after", "mmap")]
+    for typ, wm in combos:
         mult = ctx.rng.choice([1.2, 1.5, 2.0, 5.0])
         abits = ctx.rng.randrange(1, 26)
         pbits = ctx.rng.randrange(4, 26)
@@ -362,7 +364,9 @@ def run(ctx):
     found = equalmult_stream(ctx, hexe, work, quick) or found
     n = 25 if quick else 500
     forces = [{"kind": "fanout"}, {"kind": "fanout"}, {"kind": "pruned", "chains": True, "order": 6},
-              {"kind": "corpus", "chains": True, "order": 5}] + ([] if quick else [{"kind": "fanout"}] * 8)
+              {"kind": "corpus", "chains": True, "order": 5}, {"kind": "corpus", "shared": True, "order": 4},
+              {"kind": "pruned", "shared": True, "order": 5}, {"kind": "corpus", "unk": "absent", "order": 3},
+              {"kind": "corpus", "unk": "absent", "unk_in_ngrams": True, "order": 3}] + ([] if quick else [{"kind": "fanout"}] * 8)
     for ci in range(n):
         size = "small" if quick or ctx.rng.random() < 0.8 else "medium"
         force = forces[ci] if ci < len(forces) else ({"kind": "fanout"} if ctx.rng.random() < 0.03 else None)
@@ -372,6 +376,8 @@ def run(ctx):
             ctx.cov["fanout_max_buckets_spanned"] = max(ctx.cov.get("fanout_max_buckets_spanned", 0), case.meta["buckets_spanned_min"])
         for (b, L) in getattr(case, "chains", []):
             ctx.hist("c03.blankchain", "basis=%d,len=%d" % (b, L))
+        for (sl, lv, nh) in getattr(case, "shared", []):
+            ctx.hist("c03.sharedblanks", "suffix=%d,levels=%d,heads=%d" % (sl, lv, nh))
         ctx.hist("lm.order", case.meta["order"])
         ctx.hist("lm.kind", case.meta["kind"])
         try:
